@@ -188,6 +188,8 @@ class SiteScan:
                 return False, "range index %s" % show(i)[:80]
             if any(g.get(("lt", i, l2)) is True for l2 in _len_aliases(("len", v))):
                 return True, ""
+            if v[0] == "vec" and i[0] == "const" and i[2] < len(v[1]):
+                return True, ""
             return False, "no dominating test %s < len(%s)" % (show(i)[:60], show(v)[:40])
         if kind == "unwrap":
             x = args[0]
